@@ -231,7 +231,13 @@ func handleBundle(raw json.RawMessage) *Obs {
 		}
 		sort.Strings(got)
 		if c.Ok && !equalStrings(got, wantEntries) {
-			fail(r.label, "archive-entries", entryDiffClass(got, wantEntries), fmt.Sprintf("archive holds   %v\nspec's Archive  %v", got, wantEntries))
+			// a file the spec's Archive names but the bundle lacks is a violation; entries beyond the
+			// spec's (the property does not forbid them) are only counted
+			if cls := entryDiffClass(got, wantEntries); strings.Contains(cls, "missing=true") {
+				fail(r.label, "archive-entries", cls, fmt.Sprintf("archive holds   %v\nspec's Archive  %v", got, wantEntries))
+			} else {
+				obs.Notes = append(obs.Notes, "archive-has-extra-entries")
+			}
 		}
 		// 3. run the bundle with the source tree gone, from elsewhere, on recording file systems
 		gone := ws + ".gone"
